@@ -177,6 +177,7 @@ class Run:
         self.faults_fired = {}
         self.fired_excs = []
         self.max_events = MAX_EVENTS
+        self.states = set()  # distinct (normalised suspension state, shadow-stack shape) pairs seen at hand-overs
         self.side = {}  # id(obj) -> [obj, label, flags]  (for objects that cannot carry attributes)
         self.inv_during_ctor = []
         self.txs = []
@@ -316,6 +317,7 @@ class Run:
             self.aborted = "depth"
             raise Abort("depth")
         a.stack.append((FRAME_OF[kind], tx.unit, olabel, sid))
+        self.states.add((self.marker(), tuple(fr[0] for fr in a.stack)))
         tx.checked = True
         tx.kinds.add(kind)
         f = cfg.get("fault")
@@ -971,8 +973,23 @@ class World:
         return inspect.iscoroutinefunction(m)
 
     def defining_unit(self, cls, member):
+        """The unit of the function object reached by ``cls.member``: the generated raw function at the bottom of the
+        decorator stack decides (an inherited member that the library re-binds or re-wraps on a subclass is still the
+        same raw function, hence the same checker and the same suspension mark)."""
         for k in cls.__mro__:
             if member in k.__dict__:
+                v = k.__dict__[member]
+                if isinstance(v, (staticmethod, classmethod)):
+                    v = v.__func__
+                if isinstance(v, property):
+                    v = v.fget
+                n = 0
+                while hasattr(v, "__wrapped__") and n < 20:
+                    v = v.__wrapped__
+                    n += 1
+                lab = self.run.idmap.get(id(v))
+                if lab is not None:
+                    return lab
                 return "%s.%s" % (k.__name__, member)
         return "%s.%s" % (cls.__name__, member)
 
